@@ -49,7 +49,7 @@ def build(reg):
         fields={"self.file": TObj("FortranFile")},
         ensures=[("start_in_line", "implies(phys_line is not None, 0 <= recorded['range']['start']['character'] "
                                    "and recorded['range']['start']['character'] <= len(phys_line))"),
-                 ("end_in_line", "implies(phys_line is not None and ech is not None, "
+                 ("end_in_line", "implies(phys_line is not None and old(ech) is not None, "
                                  "recorded['range']['start']['character'] <= recorded['range']['end']['character'] "
                                  "and recorded['range']['end']['character'] <= len(phys_line))"),
                  ("line", "recorded['range']['start']['line'] == ln - 1")],
@@ -114,7 +114,8 @@ def build(reg):
 TARGETS = [f"{AST}.add_error", f"{LS}._create_ref_link", "fortls.parsers.internal.diagnostics.Diagnostic.build"]
 
 HANDLERS = ["serve_hover", "serve_definition", "serve_implementation", "serve_references", "serve_rename",
-            "serve_signature", "serve_codeActions", "get_definition", "_create_ref_link", "serve_autocomplete"]
+            "serve_signature", "serve_codeActions", "get_definition", "_create_ref_link", "serve_autocomplete",
+            "_nesting_depth"]
 NESTED = ["serve_autocomplete.get_candidates", "serve_autocomplete.get_candidates.child_candidates",
           "serve_autocomplete.build_comp"]
 
@@ -176,6 +177,8 @@ def safety_items(repo):
             params = {"candidate": set(objs)}
         if h.endswith("child_candidates"):
             params = {"scope": scopes}
+        if h == "_nesting_depth":
+            params = {"def_obj": (set(objs) - {"Intrinsic"})}
         s = Safety(t, fi, "C09", params, sigs, over, short="LangServer." + h)
         its = s.run()
         unchecked += s.unchecked
@@ -189,6 +192,20 @@ def safety_items(repo):
                                   "proved" if ok else "refuted", "class-flow", 0.0, where=fi.where(n), mode="S",
                                   func=fi.qualname, detail=f"`{ast.unparse(arg)}` is checked against None before it is "
                                   "passed to get_definition", witness=None if ok else {"call": ast.unparse(n)[:100]}))
+        # _nesting_depth reads FQSN and parent, which intrinsic procedures do not have: its argument must have passed the
+        # `isinstance(def_obj, Intrinsic)` exit (the helper itself is analysed below under that precondition)
+        for n in ast.walk(fi.node):
+            if isinstance(n, ast.Call) and ast.unparse(n.func) == "self._nesting_depth" and n.args:
+                from pyvc.term import dominating_guard
+                arg = ast.unparse(n.args[0])
+
+                def pred(test, arg=arg):
+                    return ast.unparse(test) == f"isinstance({arg}, Intrinsic)"
+                ok = dominating_guard(fi.node, n, pred)
+                items.append(Item(f"C09/LangServer.{h}/call_pre.declared_object[{arg}]", "proved" if ok else "refuted", "class-flow",
+                                  0.0, where=fi.where(n), mode="S", func=fi.qualname,
+                                  detail=f"`{arg}` cannot be an intrinsic procedure where it is passed to _nesting_depth",
+                                  witness=None if ok else {"call": ast.unparse(n)[:100]}))
         if h == "get_definition":
             rets = set()
             for r in s.returns:
